@@ -1,5 +1,6 @@
 import Verif.Impl.LuaApi
 import Verif.Impl.RunObs
+import Verif.Facts.MemNow
 import Driver.Trap
 /-  `luaapi` verb (property C12): replay the script's API calls on the model machine. -/
 namespace Driver
@@ -33,15 +34,30 @@ def showRet : ApiRet → Option String
   | .bytes l => some ("m" ++ String.join (l.map hexB))
   | .fault => some "FAULT"
 
-/-- bus state of the API replay: memory, the published cycle counter, everything `rec` recorded -/
+/-- bus state of the API replay: memory (the sparse flat memory for Linear64K, the memory model of Impl/Mem.lean
+    for every other MemSpec, so that banked windows are what the program sees), the published cycle counter,
+    everything `rec` recorded -/
 structure TB where
   sb : SBus
+  ms : Option (Spec.MemKind × MemState)
   cyc : Nat
   out : Array String
 
 def tbBus : Bus TB where
-  load s a := match sbus.load s.sb a with | (r, sb') => (r, { s with sb := sb' })
-  store s a v r := match sbus.store s.sb a v r with | (res, sb') => (res, { s with sb := sb' })
+  load s a :=
+    match s.ms with
+    | none => match sbus.load s.sb a with | (r, sb') => (r, { s with sb := sb' })
+    | some (k, m) =>
+      match Impl.load k m a with
+      | (some v, m') => (.ok v, { s with ms := some (k, m') })
+      | (none, m') => (.error .mem, { s with ms := some (k, m') })
+  store s a v r :=
+    match s.ms with
+    | none => match sbus.store s.sb a v r with | (res, sb') => (res, { s with sb := sb' })
+    | some (k, m) =>
+      match Impl.store k m a v with
+      | (true, m') => (.ok r, { s with ms := some (k, m') })
+      | (false, m') => (.error .mem, { s with ms := some (k, m') })
 
 /-- `function trap(c) rec(get_cycles()); rec(c) end` -/
 def cycScript : Script TB := fun c r s => (.ok r, { s with out := (s.out.push (toString s.cyc)).push (toString c.toNat) })
@@ -50,10 +66,27 @@ abbrev AM := Machine (Trapped TB)
 
 def pushOut (m : AM) (s : String) : AM := { m with mem := { m.mem with inner := { m.mem.inner with out := m.mem.inner.out.push s } } }
 
+/-- read_byte_long / write_byte_long: the linear view of the memory model -/
+def longOp (m : AM) (w : String) : Option AM :=
+  match m.mem.inner.ms, w.splitOn ":" with
+  | some (k, ms), ["rl", a] => do
+    let l ← parseHex a
+    match Impl.loadLarge k ms (BitVec.ofNat 32 l) with
+    | (some v, ms') => some (pushOut { m with mem := { m.mem with inner := { m.mem.inner with ms := some (k, ms') } } } (toString v.toNat))
+    | (none, _) => some (pushOut m "FAULT")
+  | some (k, ms), ["wl", a, v] => do
+    let l ← parseHex a
+    let b ← parseByte v
+    match Impl.storeLarge k ms (BitVec.ofNat 32 l) b with
+    | (true, ms') => some { m with mem := { m.mem with inner := { m.mem.inner with ms := some (k, ms') } } }
+    | (false, _) => some (pushOut m "FAULT")
+  | _, _ => none
+
 def runOpsApi (bus : Bus (Trapped TB)) (la pl : Nat) (m : AM) (ops : List String) : Option AM :=
   ops.foldlM (fun m w =>
     if w == "la" then some (pushOut m (toString la))
     else if w == "pl" then some (pushOut m (toString pl))
+    else if w.startsWith "rl:" || w.startsWith "wl:" then longOp m w
     else do
       let op ← parseApiOp w
       let (ret, m') := apiStep bus m op
@@ -84,11 +117,17 @@ def handleLuaApi (line : String) : String :=
         let trap := tr == "1"
         let code := if trap then trapObserverCode else observerCode
         let sb0 : SBus := { mem := loadCode [] la code, trace := #[], budget := 1000000 }
+        -- every MemSpec other than Linear64K runs on the memory model (program loaded by stores, as cpu.Load does)
+        let ms0 : Option (Spec.MemKind × MemState) :=
+          if spec == "Linear64K" then none
+          else (Facts.docMachine spec).map fun k =>
+            (k, (code.zipIdx.foldl (fun (st : MemState) (bi : Nat × Nat) =>
+              (Impl.store k st (BitVec.ofNat 16 (la + bi.2)) (BitVec.ofNat 8 bi.1)).2) (initState k)))
         let bus := trapBus tbBus 0x7F00 (if trap then some cycScript else none)
         let setCyc : Nat → Trapped TB → Trapped TB := fun c s => { s with inner := { s.inner with cyc := c } }
         -- Execute: cpu.PC = loadAddress; then per iteration arrange, RunExt(cpu.PC, false), assert
         let m0 : AM := { regs := { regs0 with pc := BitVec.ofNat 16 la }, cycles := 0,
-                         mem := { inner := { sb := sb0, cyc := 0, out := #[] }, log := [] } }
+                         mem := { inner := { sb := sb0, ms := ms0, cyc := 0, out := #[] }, log := [] } }
         let rec loop : Nat → AM → Option AM
           | 0, st => some st
           | n + 1, st => do
